@@ -72,6 +72,8 @@ def _visits(spec, which, parallel, workdir, tag):
     if which == "leaves":
         def cb(pos, tile):
             evlog.ev("cb_start", pos=tuple(pos), tp=(None if tile is None else tuple(tile.pos)))
+            if parallel > 1:
+                instr_mp.cb_delay(tuple(pos), "leaves")
             evlog.ev("cb_end", pos=tuple(pos))
 
         def fn():
@@ -79,6 +81,8 @@ def _visits(spec, which, parallel, workdir, tag):
     else:
         def cb(pos):
             evlog.ev("cb_start", pos=tuple(pos))
+            if parallel > 1:
+                instr_mp.cb_delay(tuple(pos))
             evlog.ev("cb_end", pos=tuple(pos))
 
         def fn():
@@ -127,7 +131,7 @@ def _pyr_case(spec, workdir):
         cl = rq.closed_counts(depth, apex[0])
         if (nl, nv, no) != cl:
             probs.append("closed form %s vs %s" % (cl, (nl, nv, no)))
-    pars = [1] + ([3] if spec.get("par") else [])
+    pars = [1] + ([[3, 4, 8][spec.get("seed", 0) % 3]] if spec.get("par") else [])
     for par in pars:
         for which, ref in (("leaves", ref_leaves), ("walk", ref_ops)):
             c, bad, outcome = _visits(spec, which, par, workdir, "a")
@@ -369,7 +373,8 @@ def run_case(spec, workdir):
         return _closed2(spec, workdir)
     if t == "objhist":
         return _objhist(spec, workdir)
-    instr_mp.install("natural", spec.get("seed", 0))
+    # parallel visits and walks run under a delay profile: slow / heavy-tailed callbacks, producer stalls, late starts
+    instr_mp.install(["natural", "heavy_tail", "slow_workers", "stall", "heavy_tail", "late_check"][spec.get("seed", 0) % 6], spec.get("seed", 0))
     return _pyr_case(spec, workdir)
 
 
